@@ -179,6 +179,101 @@ func corpus(r *Rng) []Case {
 		e.wake(c5)
 		e.fnReturn(c4, wAnswer{v: wValue{kind: "groups", groups: []string{"g1"}}})
 	}))
+	// M1/M2: two upstreams of one deployment (two wrapper objects built like proxy.New builds them:
+	// same provider URL, slug and client id) with different allowed groups; the same session is
+	// presented to both and the validations / refreshes overlap: BOTH must be executed, each with
+	// its own allowed groups, and each caller gets its own answer (seeded change C16-4)
+	for _, ep := range []string{"PValidate", "PRefresh"} {
+		ep := ep
+		out = append(out, proxyCaseN(r, 2, 0, 0, func(e *engine, mk func(int, *question) *caller) {
+			s1, s2, s3 := base, base, base
+			a := mk(1, &question{endpoint: ep, s: &s1, allowed: []string{"team-a"}, wid: 0})
+			b := mk(2, &question{endpoint: ep, s: &s2, allowed: []string{"team-b"}, wid: 1})
+			a2 := mk(3, &question{endpoint: ep, s: &s3, allowed: []string{"team-a"}, wid: 0})
+			e.enter(a)
+			e.enter(b)
+			e.enter(a2)
+			e.fnReturn(a, wAnswer{v: wValue{kind: "bool", b: true}})
+			e.fnReturn(b, wAnswer{v: wValue{kind: "bool", b: false}})
+			e.wake(a2)
+		}))
+	}
+	// M3: two providers of one authenticator (two wrapper objects, distinct slugs): the same token
+	// validated at both is two executions
+	out = append(out, authCaseN(r, 2, 0, 0, func(e *engine, mk func(int, *question) *caller) {
+		s1, s2 := base, base
+		a := mk(1, &question{endpoint: "AValidate", s: &s1, wid: 0})
+		b := mk(2, &question{endpoint: "AValidate", s: &s2, wid: 1})
+		e.enter(a)
+		e.enter(b)
+		e.fnReturn(b, wAnswer{v: wValue{kind: "bool", b: false}})
+		e.fnReturn(a, wAnswer{v: wValue{kind: "bool", b: true}})
+	}))
+	// K3: ONE wrapper object handed two different allowed-group sets for the same session: the
+	// key omits them, the second caller gets the first one's verdict (latent: proxy.New never does this)
+	for _, ep := range []string{"PValidate", "PRefresh"} {
+		ep := ep
+		out = append(out, proxyCaseN(r, 1, 0, 0, func(e *engine, mk func(int, *question) *caller) {
+			s1, s2 := base, base
+			a := mk(1, &question{endpoint: ep, s: &s1, allowed: []string{"team-a"}})
+			b := mk(2, &question{endpoint: ep, s: &s2, allowed: []string{"team-b"}})
+			e.enter(a)
+			e.enter(b)
+			e.fnReturn(a, wAnswer{v: wValue{kind: "bool", b: true}})
+		}))
+	}
+	// X: different methods on the same session / e-mail within one wrapper object, in every order
+	// of two methods: m1 in flight, m2 runs to completion successfully, m1 is asked again while its
+	// first execution is still in flight (must join it, never a second execution of that key),
+	// then m2 again (fresh) — seeded change C16-5 is the pair (Validate, Revoke)
+	mkq := func(ep string) *question {
+		s := base
+		switch ep {
+		case "AGroupMembership", "PUserGroups":
+			return &question{endpoint: ep, email: base.email, groups: []string{"g1"}}
+		case "ARefreshAccessToken":
+			return &question{endpoint: ep, token: base.refresh}
+		}
+		return &question{endpoint: ep, s: &s, allowed: []string{"team-a"}}
+	}
+	okAnswer := func(ep string) wAnswer {
+		switch ep {
+		case "AGroupMembership", "PUserGroups":
+			return wAnswer{v: wValue{kind: "groups", groups: []string{"g1"}}}
+		case "ARevoke":
+			return wAnswer{v: wValue{kind: "nil"}}
+		case "ARefreshAccessToken":
+			return wAnswer{v: wValue{kind: "token", tok: "at7", expires: 3600}}
+		}
+		return wAnswer{v: wValue{kind: "bool", b: true}}
+	}
+	pairs := func(methods []string, run func(func(e *engine, mk func(int, *question) *caller)) Case) {
+		for _, m1 := range methods {
+			for _, m2 := range methods {
+				if m1 == m2 {
+					continue
+				}
+				m1, m2 := m1, m2
+				out = append(out, run(func(e *engine, mk func(int, *question) *caller) {
+					c1, c2 := mk(1, mkq(m1)), mk(2, mkq(m2))
+					e.enter(c1)
+					e.enter(c2)
+					e.fnReturn(c2, okAnswer(m2))
+					c3 := mk(3, mkq(m1))
+					e.enter(c3)
+					c4 := mk(4, mkq(m2))
+					e.enter(c4)
+					e.fnReturn(c1, okAnswer(m1))
+					e.wake(c3)
+					e.fnReturn(c4, okAnswer(m2))
+				}))
+			}
+		}
+	}
+	pairs([]string{"AValidate", "ARefresh", "ARevoke", "AGroupMembership", "ARefreshAccessToken"},
+		func(sc func(e *engine, mk func(int, *question) *caller)) Case { return authCaseN(r, 1, 0, 0, sc) })
+	pairs([]string{"PValidate", "PRefresh", "PUserGroups"},
+		func(sc func(e *engine, mk func(int, *question) *caller)) Case { return proxyCaseN(r, 1, 0, 0, sc) })
 	return out
 }
 
